@@ -856,6 +856,9 @@ void ApplyOptions(const Workload &w, const draco::PointCloud &pc,
 
 
 // ------------------------------------------------- legacy writer stub -----
+// (byz.cc)
+bool ByzEdgebreakerStream(const Workload &w, std::vector<uint8_t> *out,
+                          std::string *err);
 // (legacy_eb.cc)
 bool EncodePredictiveEdgebreaker(const Workload &w, const draco::Mesh &mesh,
                                  std::vector<uint8_t> *out, std::string *err);
@@ -1000,6 +1003,7 @@ bool LegacyKdTreeFloat(const Workload &w, const draco::PointCloud &geom,
 bool EncodeGeometry(const Workload &w, const draco::PointCloud &geom,
                     std::vector<uint8_t> *out, std::string *err) {
   if (w.legacy == 3) return LegacyKdTreeFloat(w, geom, out, err);
+  if (w.legacy == 5) return ByzEdgebreakerStream(w, out, err);
   if (w.legacy == 4) {
     if (w.kind != 0) return LegacyFail(err, "predictive edgebreaker needs a mesh");
     return EncodePredictiveEdgebreaker(w, static_cast<const draco::Mesh &>(geom),
